@@ -367,6 +367,19 @@ theorem vinv_step {p : Params} {pre : List Ev} {c : Config} (e : Ev) (h : VInv p
       · simp only [List.contains_append, hnc, hc', Bool.false_or]; rfl
       · rw [expiredIn_append, hnc]; simp only [Bool.false_eq_true, if_false]
         rw [h.clock]; exact expiredIn_of_not_contains pre hnc
+  | stall =>
+    have hm := fun i t => hmono i t (by simp)
+    have hst : (step .repaired p c .stall).st.created = c.st.created ∧ (step .repaired p c .stall).st.now = c.st.now ∧
+        (step .repaired p c .stall).st.code = c.st.code ∧ (step .repaired p c .stall).ths = c.ths := by
+      simp only [step]; (repeat' split) <;> simp
+    refine ⟨?_, ?_, ?_, ?_⟩
+    · rw [hst.1, List.contains_append, h.created]; simp
+    · rw [hst.2.1, expiredIn_append, h.clock]
+      cases hc : pre.contains .create with
+      | true => simp
+      | false => simp [expiredIn_of_not_contains pre hc]
+    · rw [hst.1, hst.2.2.1]; exact h.code
+    · rw [hst.2.2.2]; exact hm
   | th i =>
     have hm : ∀ (j : Nat) (t : Thread), i ≠ j → c.ths[j]? = some t → VT p (pre ++ [.th i]) j t :=
       fun j t hij => hmono j t (by simp [hij])
@@ -429,12 +442,13 @@ theorem vinv_step {p : Params} {pre : List Ev} {c : Config} (e : Ev) (h : VInv p
         · rw [List.getElem?_set_ne hij] at hj
           exact hm j tj hij hj
 
-theorem vinv_run {p : Params} (evs : List Ev) {pre : List Ev} {c : Config} (h : VInv p pre c) (hi : Inv p c) :
+theorem vinv_run {p : Params} (evs : List Ev) {pre : List Ev} {c : Config} (h : VInv p pre c) (hi : Inv p c)
+    (hl : leaseOk p c evs = true) :
     VInv p (pre ++ evs) (run .repaired p c evs) := by
   induction evs generalizing pre c with
   | nil => simpa [run] using h
   | cons e es ih =>
-    have := ih (vinv_step e h hi) (inv_step e hi)
+    have := ih (vinv_step e h hi) (inv_step e hi (lease_next hl).1) (lease_next hl).2
     simpa [run, List.append_assoc] using this
 
 theorem vinv_init {p : Params} (preC preN : Nat) (ths : List Thread) (hf : freshThreads ths = true) :
@@ -470,9 +484,10 @@ theorem holdsValid_of_vinv {p : Params} {evs : List Ev} {c : Config} (h : VInv p
     | err _ => rfl
     | running => rfl
 
-theorem holdsValid_run {p : Params} (preC preN : Nat) (ths : List Thread) (evs : List Ev) (hf : freshThreads ths = true) :
+theorem holdsValid_run {p : Params} (preC preN : Nat) (ths : List Thread) (evs : List Ev) (hf : freshThreads ths = true)
+    (hl : leaseOk p (init preC preN ths) evs = true) :
     holdsValid evs (obs (run .repaired p (init preC preN ths) evs)) = true := by
-  have := vinv_run (p := p) evs (vinv_init preC preN ths hf) (inv_init preC preN ths hf)
+  have := vinv_run (p := p) evs (vinv_init preC preN ths hf) (inv_init preC preN ths hf) hl
   exact holdsValid_of_vinv (by simpa using this)
 
 end Tunnox.C06
